@@ -11,6 +11,7 @@ import Bio.Model.Sequtil
 import Bio.Generated.GoSrc
 import Bio.Lemmas.GoRt
 import Bio.Lemmas.Mash
+import Bio.Lemmas.Sequtil
 set_option linter.unusedVariables false
 namespace Bio.GoSrcLemmas
 open Bio Bio.GoRt Bio.Generated
@@ -178,4 +179,353 @@ theorem DNAFrom2Bit_eq (hF : GoSrc.DNAFrom2Bit_Found = true) (tbl : List (List U
      simp at this ⊢
      rw [this]
      exact from2bitLoop tbl h256 src dst)
+theorem cmp_eq_one (a b : Bytes) : (cmp a b == 1) = bytesLt b a := by
+  unfold cmp
+  cases h1 : bytesLt a b <;> cases h2 : bytesLt b a <;> simp
+  have := Mash.bytesLt_asymm h1
+  rw [h2] at this; cases this
+
+theorem canonBody_loop (f : Bytes → Bool) (seq rc : Bytes) (k : Nat) (hl : rc.length = seq.length)
+    (post : Option (List Bytes) × List Bytes → Option (List Bytes))
+    (hp1 : ∀ r l, post (some r, l) = some r) (hp2 : ∀ l, post (none, l) = some l) :
+    ∀ (n i : Nat) (log : List Bytes), (n = 0 ∨ i + n + k ≤ seq.length + 1) →
+    (forIn ((List.range' i n).map Int.ofNat) ((none : Option (List (List UInt8))), log) fun i __s =>
+            (slice seq i (i + ↑k)).bind fun kmer =>
+              (slice rc (len rc - i - ↑k) (len rc - i)).bind fun kmerRC =>
+                if bytesLt kmerRC kmer = true then
+                  if (!f kmerRC) = true then some (ForInStep.done (some (__s.snd ++ [kmerRC]), __s.snd ++ [kmerRC]))
+                  else some (ForInStep.yield (none, __s.snd ++ [kmerRC]))
+                else
+                  if (!f kmer) = true then some (ForInStep.done (some (__s.snd ++ [kmer]), __s.snd ++ [kmer]))
+                  else some (ForInStep.yield (none, __s.snd ++ [kmer]))).bind
+        post
+      = some (log ++ Sequtil.canonLoop f seq rc k i n) := by
+  intro n
+  induction n with
+  | zero => intro i log _; simp [Sequtil.canonLoop, hp2]
+  | succ n ih =>
+    intro i log hb
+    have hb' : i + k + n ≤ seq.length := by omega
+    simp only [List.range'_succ, List.map_cons, List.forIn_cons, Sequtil.canonLoop]
+    have e1 : Int.ofNat i + (k : Int) = ((i + k : Nat) : Int) := by simp
+    have e2 : len rc - Int.ofNat i - (k : Int) = ((rc.length - i - k : Nat) : Int) := by
+      unfold len; simp only [Int.ofNat_eq_natCast]; omega
+    have e3 : len rc - Int.ofNat i = ((rc.length - i : Nat) : Int) := by
+      unfold len; simp only [Int.ofNat_eq_natCast]; omega
+    rw [e1, e2, e3, show Int.ofNat i = (i : Int) from rfl,
+      slice_ofNat seq i (i + k) (by omega) (by omega),
+      slice_ofNat rc (rc.length - i - k) (rc.length - i) (by omega) (by omega)]
+    simp only [Option.bind_some]
+    have e4 : i + k - i = k := by omega
+    have e5 : rc.length - i - (rc.length - i - k) = k := by omega
+    rw [e4, e5]
+    unfold Sequtil.canonItem
+    simp only []
+    have ih' := fun log => ih (i + 1) log (by omega)
+    split
+    · cases hf : f (List.take k (List.drop (rc.length - i - k) rc))
+      · simp only [Bool.not_false, if_true, Option.bind_eq_bind, Option.bind_some, Option.pure_def, hp1,
+          Bool.false_eq_true, if_false]
+      · simp only [Bool.not_true, Bool.false_eq_true, if_false, if_true, Option.bind_eq_bind, Option.bind_some, ih',
+          List.append_assoc, List.singleton_append]
+    · cases hf : f (List.take k (List.drop i seq))
+      · simp only [Bool.not_false, if_true, Option.bind_eq_bind, Option.bind_some, Option.pure_def, hp1,
+          Bool.false_eq_true, if_false]
+      · simp only [Bool.not_true, Bool.false_eq_true, if_false, if_true, Option.bind_eq_bind, Option.bind_some, ih',
+          List.append_assoc, List.singleton_append]
+
+theorem CanonicalSubsequences_eq (hF : GoSrc.CanonicalSubsequences_Found = true)
+    (hR : GoSrc.ReverseComplement_Found = true) (hC : GoSrc.complementByte_Found = true)
+    (tbl : List UInt8) (f : Bytes → Bool) (seq : Bytes) (k : Nat) :
+    GoSrc.CanonicalSubsequences tbl seq (k : Int) f = Sequtil.canonicalLog tbl f seq k := by
+  first
+  | exact absurd hF (by decide)
+  | (unfold GoSrc.CanonicalSubsequences Sequtil.canonicalLog
+     simp only [Option.pure_def, Option.bind_eq_bind, ReverseComplement_eq hR hC]
+     cases hrc : Sequtil.revComp tbl [] seq with
+     | none => rfl
+     | some rc =>
+       have hl := Mash.revComp_length hrc
+       simp only [Option.bind_some]
+       have hn : upTo (len seq - (k : Int) + 1) = (List.range' 0 (seq.length + 1 - k)).map Int.ofNat := by
+         unfold upTo len
+         rw [List.range_eq_range']
+         congr 2
+         omega
+       rw [hn]
+       have key := fun post hp1 hp2 =>
+         canonBody_loop f seq rc k hl post hp1 hp2 (seq.length + 1 - k) 0 [] (by omega)
+       simp only [cmp_eq_one]
+       rw [key]
+       · rfl
+       · intro r l; rfl
+       · intro l; rfl)
+
+/-- Go's `if b >= 'a' { b -= 'a' - 'A' }` -/
+def up (b : UInt8) : UInt8 := if b ≥ 97 then b - 32 else b
+
+/-- the body of the `for i := 0; i < len(src); i += 3` loop of the generated `Translate` -/
+def trBody (src : List (List UInt8 × UInt8)) (s : Bytes) :
+    Int → Bytes × Bytes → Option (ForInStep (Bytes × Bytes)) :=
+  fun i __s =>
+    (slice s i (i + 3)).bind fun __do_lift =>
+      (forIn (upTo (len (copyInto __s.snd __do_lift))) (copyInto __s.snd __do_lift) fun j __s =>
+            (idx __s j).bind fun __do_lift =>
+              if __do_lift ≥ 97 then
+                (idx __s j).bind fun __do_lift =>
+                  (setIdx __s j (__do_lift - 32)).bind fun buf => some (ForInStep.yield buf)
+              else some (ForInStep.yield __s)).bind
+        fun __s_1 =>
+        if (mapGet src __s_1 0 == 0) = true then
+          (none : Option Unit).bind fun __r => some (ForInStep.yield (__s.fst ++ [mapGet src __s_1 0], __s_1))
+        else some (ForInStep.yield (__s.fst ++ [mapGet src __s_1 0], __s_1))
+
+theorem upcase3 (a b c : UInt8) :
+    (forIn (upTo (len [a, b, c])) [a, b, c] fun j (__s : Bytes) =>
+            (idx __s j).bind fun __do_lift =>
+              if __do_lift ≥ 97 then
+                (idx __s j).bind fun __do_lift =>
+                  (setIdx __s j (__do_lift - 32)).bind fun buf => some (ForInStep.yield buf)
+              else some (ForInStep.yield __s)) = some [up a, up b, up c] := by
+  have h : upTo (len [a, b, c]) = [0, 1, 2] := rfl
+  rw [h]
+  unfold up
+  by_cases ha : a ≥ 97 <;> by_cases hb : b ≥ 97 <;> by_cases hc : c ≥ 97 <;>
+    simp [idx, setIdx, ha, hb, hc]
+
+theorem slice_cons3 (a b c : UInt8) (rest : Bytes) (k : Nat) :
+    slice (a :: b :: c :: rest) (((k + 1 : Nat) : Int) * 3) (((k + 1 : Nat) : Int) * 3 + 3)
+      = slice rest ((k : Int) * 3) ((k : Int) * 3 + 3) := by
+  unfold slice
+  have e1 : (((k + 1 : Nat) : Int) * 3).toNat = k * 3 + 3 := by omega
+  have e2 : ((k : Int) * 3).toNat = k * 3 := by omega
+  have e3 : (((k + 1 : Nat) : Int) * 3 + 3 - ((k + 1 : Nat) : Int) * 3).toNat = 3 := by omega
+  have e4 : ((k : Int) * 3 + 3 - (k : Int) * 3).toNat = 3 := by omega
+  rw [e1, e2, e3, e4]
+  simp only [List.length_cons]
+  by_cases h : k * 3 + 3 ≤ rest.length
+  · rw [if_pos (by omega), if_pos (by omega)]
+    rfl
+  · rw [if_neg (by omega), if_neg (by omega)]
+
+theorem trBody_shift (src : List (List UInt8 × UInt8)) (a b c : UInt8) (rest : Bytes) (k : Nat) :
+    trBody src (a :: b :: c :: rest) (((k + 1 : Nat) : Int) * 3) = trBody src rest ((k : Int) * 3) := by
+  unfold trBody
+  rw [slice_cons3]
+
+theorem trBody_zero (src : List (List UInt8 × UInt8)) (obs : Sequtil.CodonTable)
+    (hT : ∀ a b c : UInt8, mapGet src [up a, up b, up c] 0 = ((Sequtil.codon obs a b c).getD 0))
+    (hnz : ∀ a b c v, Sequtil.codon obs a b c = some v → v ≠ 0)
+    (a b c : UInt8) (rest dst buf : Bytes) (hb : buf.length = 3) :
+    trBody src (a :: b :: c :: rest) 0 (dst, buf) =
+      (Sequtil.codon obs a b c).map fun v => ForInStep.yield (dst ++ [v], [up a, up b, up c]) := by
+  unfold trBody
+  have hs : slice (a :: b :: c :: rest) 0 (0 + 3) = some [a, b, c] := by
+    unfold slice; simp; omega
+  have hc : copyInto buf [a, b, c] = [a, b, c] := by
+    unfold copyInto; simp [hb]
+  simp only [hs, Option.bind_some, hc, upcase3, hT]
+  cases h : Sequtil.codon obs a b c with
+  | none => simp
+  | some v =>
+    have := hnz a b c v h
+    simp [this]
+
+theorem translate_bad_len (tbl : Sequtil.CodonTable) : ∀ (s dst : Bytes), s.length % 3 ≠ 0 →
+    Sequtil.translate tbl dst s = none
+  | [], _, h => by simp at h
+  | [_], _, _ => by simp [Sequtil.translate]
+  | [_, _], _, _ => by simp [Sequtil.translate]
+  | a :: b :: c :: rest, dst, h => by
+    simp only [Sequtil.translate]
+    cases Sequtil.codon tbl a b c with
+    | none => rfl
+    | some v =>
+      exact translate_bad_len tbl rest _ (by simp only [List.length_cons] at h; omega)
+
+theorem trLoop (src : List (List UInt8 × UInt8)) (obs : Sequtil.CodonTable)
+    (hT : ∀ a b c : UInt8, mapGet src [up a, up b, up c] 0 = ((Sequtil.codon obs a b c).getD 0))
+    (hnz : ∀ a b c v, Sequtil.codon obs a b c = some v → v ≠ 0) :
+    ∀ (n : Nat) (s dst buf : Bytes), s.length = 3 * n → buf.length = 3 →
+      (forIn ((List.range n).map fun (k : Nat) => (k : Int) * 3) (dst, buf) (trBody src s)).bind
+          (fun __s => some __s.fst) = Sequtil.translate obs dst s := by
+  intro n
+  induction n with
+  | zero =>
+    intro s dst buf hs hb
+    have : s = [] := List.length_eq_zero_iff.mp (by omega)
+    subst this
+    simp [Sequtil.translate]
+  | succ n ih =>
+    intro s dst buf hs hb
+    match s, hs with
+    | a :: b :: c :: rest, hs =>
+      have hr : rest.length = 3 * n := by simp only [List.length_cons] at hs; omega
+      rw [List.range_succ_eq_map, List.map_cons, List.map_map, List.forIn_cons]
+      have h0 : ((0 : Nat) : Int) * 3 = 0 := by omega
+      rw [h0, trBody_zero src obs hT hnz a b c rest dst buf hb]
+      simp only [Sequtil.translate]
+      cases h : Sequtil.codon obs a b c with
+      | none => rfl
+      | some v =>
+        simp only [Option.map_some, Option.bind_eq_bind, Option.bind_some]
+        rw [← ih rest (dst ++ [v]) [up a, up b, up c] hr rfl]
+        congr 1
+        rw [List.forIn_map, List.forIn_map]
+        apply forIn_congr_mem
+        intro k _ st
+        exact congrFun (trBody_shift src a b c rest k) st
+
+
+theorem Translate_eq (hF : GoSrc.Translate_Found = true)
+    (src : List (List UInt8 × UInt8)) (obs : Sequtil.CodonTable)
+    (hT : ∀ a b c : UInt8, mapGet src [up a, up b, up c] 0 = ((Sequtil.codon obs a b c).getD 0))
+    (hnz : ∀ a b c v, Sequtil.codon obs a b c = some v → v ≠ 0) (dst s : Bytes) :
+    GoSrc.Translate src dst s = Sequtil.translate obs dst s := by
+  first
+  | exact absurd hF (by decide)
+  | (unfold GoSrc.Translate
+     simp only [Option.pure_def, Option.bind_eq_bind]
+     have hm : (len s).tmod 3 = ((s.length % 3 : Nat) : Int) := by
+       unfold len; rw [Int.tmod_eq_emod_of_nonneg (by omega)]; omega
+     by_cases h3 : s.length % 3 = 0
+     · have hne : ((len s).tmod 3 != 0) = false := by rw [hm, h3]; rfl
+       rw [hne]
+       simp only [Bool.false_eq_true, if_false]
+       have hu : upToStep (len s) 3 = (List.range (s.length / 3)).map fun (k : Nat) => (k : Int) * 3 := by
+         unfold upToStep len
+         have : ((s.length : Int).toNat + (3 : Int).toNat - 1) / (3 : Int).toNat = s.length / 3 := by
+           simp only [Int.toNat_natCast, show (3 : Int).toNat = 3 from rfl]; omega
+         rw [this]
+       rw [hu]
+       exact trLoop src obs hT hnz (s.length / 3) s dst (List.replicate 3 0) (by omega) rfl
+     · have hne : ((len s).tmod 3 != 0) = true := by
+         rw [hm]; simp only [bne_iff_ne, ne_eq]; omega
+       rw [hne, translate_bad_len obs s dst h3]
+       rfl)
+
+theorem TranslateReadingFrames_eq (hF : GoSrc.TranslateReadingFrames_Found = true)
+    (hTr : GoSrc.Translate_Found = true)
+    (src : List (List UInt8 × UInt8)) (obs : Sequtil.CodonTable)
+    (hT : ∀ a b c : UInt8, mapGet src [up a, up b, up c] 0 = ((Sequtil.codon obs a b c).getD 0))
+    (hnz : ∀ a b c v, Sequtil.codon obs a b c = some v → v ≠ 0) (seq : Bytes) :
+    GoSrc.TranslateReadingFrames src seq = Sequtil.frames obs seq := by
+  first
+  | exact absurd hF (by decide)
+  | (unfold GoSrc.TranslateReadingFrames Sequtil.frames
+     simp only [Option.pure_def, Option.bind_eq_bind]
+     have h : upTo 3 = [((0 : Nat) : Int), ((1 : Nat) : Int), ((2 : Nat) : Int)] := rfl
+     rw [h]
+     simp only [List.forIn_cons, List.forIn_nil, slice_from, slice_upto3, Option.bind_some,
+       Translate_eq hTr src obs hT hnz, List.drop_zero, List.mapM_cons, List.mapM_nil]
+     have hf : ∀ x : Bytes, Sequtil.translate obs [] (x.take (x.length / 3 * 3)) = Sequtil.frame obs x :=
+       fun _ => rfl
+     simp only [hf]
+     cases Sequtil.frame obs seq with
+     | none => rfl
+     | some r0 =>
+       cases Sequtil.frame obs (seq.drop 1) with
+       | none => rfl
+       | some r1 =>
+         cases Sequtil.frame obs (seq.drop 2) with
+         | none => rfl
+         | some r2 => rfl)
+
+/-! ## Compatibility of the 64-entry source map `codonToAmino` with an observed table of all accepted
+raw triples, by a finite check: the keys of the observed table are exactly the 8³ triples over
+`ACGTacgt`, each entry agrees with the source map after upper-casing, and every key byte of the
+source map is one of `ACGT`. -/
+
+def dna8 : Bytes := [65, 67, 71, 84, 97, 99, 103, 116]
+def isUp4 (b : UInt8) : Bool := b == 65 || b == 67 || b == 71 || b == 84
+def cube : List (UInt8 × UInt8 × UInt8) :=
+  dna8.flatMap fun a => dna8.flatMap fun b => dna8.map fun c => (a, b, c)
+
+/-- every key byte of the source map is one of `ACGT` -/
+def srcKeysOK (src : List (List UInt8 × UInt8)) : Bool := src.all fun e => e.1.all isUp4
+/-- the keys of the observed table are the 512 triples over `ACGTacgt` (in enumeration order) -/
+def obsKeysOK (obs : Sequtil.CodonTable) : Bool := obs.map (·.1) == cube
+/-- every observed entry is what the source map gives for the upper-cased triple, and is not 0 -/
+def obsEntriesOK (src : List (List UInt8 × UInt8)) (obs : Sequtil.CodonTable) : Bool :=
+  obs.all fun e => mapGet src [up e.1.1, up e.1.2.1, up e.1.2.2] 0 == e.2 && e.2 != 0
+
+theorem up_isUp4 : ∀ b : UInt8, isUp4 (up b) = true → b ∈ dna8 := by
+  apply Sequtil.forall_uint8; decide +kernel
+
+theorem mem_cube_iff (a b c : UInt8) : (a, b, c) ∈ cube ↔ a ∈ dna8 ∧ b ∈ dna8 ∧ c ∈ dna8 := by
+  unfold cube
+  simp only [List.mem_flatMap, List.mem_map, Prod.mk.injEq]
+  constructor
+  · rintro ⟨a', ha, b', hb, c', hc, h1, h2, h3⟩
+    subst h1 h2 h3; exact ⟨ha, hb, hc⟩
+  · rintro ⟨ha, hb, hc⟩
+    exact ⟨a, ha, b, hb, c, hc, rfl, rfl, rfl⟩
+
+theorem codon_some_mem {obs : Sequtil.CodonTable} {a b c v : UInt8}
+    (h : Sequtil.codon obs a b c = some v) : ((a, b, c), v) ∈ obs := by
+  unfold Sequtil.codon at h
+  cases hf : obs.find? (fun e => e.1 == (a, b, c)) with
+  | none => rw [hf] at h; cases h
+  | some e =>
+    rw [hf] at h
+    have hm := List.mem_of_find?_eq_some hf
+    have hk := List.find?_some hf
+    have he : e.1 = (a, b, c) := by simpa using hk
+    have hv : e.2 = v := by simpa using h
+    rw [← he, ← hv]; exact hm
+
+theorem codon_ne_zero (src : List (List UInt8 × UInt8)) (obs : Sequtil.CodonTable)
+    (hent : obsEntriesOK src obs = true) (a b c v : UInt8)
+    (h : Sequtil.codon obs a b c = some v) : v ≠ 0 := by
+  unfold obsEntriesOK at hent
+  rw [List.all_eq_true] at hent
+  have := hent _ (codon_some_mem h)
+  simp only [Bool.and_eq_true, bne_iff_ne, ne_eq] at this
+  exact this.2
+
+theorem mapGet_zero_of_not_dna (src : List (List UInt8 × UInt8)) (hsrc : srcKeysOK src = true) (a b c : UInt8)
+    (h : ¬ (a ∈ dna8 ∧ b ∈ dna8 ∧ c ∈ dna8)) :
+    mapGet src [up a, up b, up c] 0 = 0 := by
+  unfold mapGet
+  cases hf : src.find? (fun e => e.1 == [up a, up b, up c]) with
+  | none => rfl
+  | some e =>
+    exfalso
+    have hm := List.mem_of_find?_eq_some hf
+    have hk := List.find?_some hf
+    have he : e.1 = [up a, up b, up c] := by simpa using hk
+    unfold srcKeysOK at hsrc
+    rw [List.all_eq_true] at hsrc
+    have := hsrc e hm
+    rw [he] at this
+    simp only [List.all_cons, List.all_nil, Bool.and_true, Bool.and_eq_true] at this
+    exact h ⟨up_isUp4 a this.1, up_isUp4 b this.2.1, up_isUp4 c this.2.2⟩
+
+theorem codon_tables_compat (src : List (List UInt8 × UInt8)) (obs : Sequtil.CodonTable)
+    (hsrc : srcKeysOK src = true) (hkeys : obsKeysOK obs = true) (hent : obsEntriesOK src obs = true)
+    (a b c : UInt8) : mapGet src [up a, up b, up c] 0 = (Sequtil.codon obs a b c).getD 0 := by
+  have hk : obs.map (·.1) = cube := by simpa [obsKeysOK] using hkeys
+  cases hc : Sequtil.codon obs a b c with
+  | some v =>
+    unfold obsEntriesOK at hent
+    rw [List.all_eq_true] at hent
+    have := hent _ (codon_some_mem hc)
+    simp only [Bool.and_eq_true, beq_iff_eq] at this
+    exact this.1
+  | none =>
+    have hnot : ¬ (a ∈ dna8 ∧ b ∈ dna8 ∧ c ∈ dna8) := by
+      intro hd
+      have hm : (a, b, c) ∈ obs.map (·.1) := by rw [hk]; exact (mem_cube_iff a b c).mpr hd
+      rw [List.mem_map] at hm
+      obtain ⟨e, he, hek⟩ := hm
+      unfold Sequtil.codon at hc
+      have : obs.find? (fun e => e.1 == (a, b, c)) = none := by
+        cases hf : obs.find? (fun e => e.1 == (a, b, c)) with
+        | none => rfl
+        | some x => rw [hf] at hc; cases hc
+      rw [List.find?_eq_none] at this
+      exact this e he (by simp [hek])
+    rw [mapGet_zero_of_not_dna src hsrc a b c hnot]
+    rfl
+
 end Bio.GoSrcLemmas
